@@ -754,6 +754,19 @@ func runC11(c *rt.Ctx) {
 	for i := 0; i < nquery; i++ {
 		c.Case("query", i, func(o *rt.Obs) { st.queryCase(o, i) })
 	}
+	// grammar-generated programs: typed constants in every argument slot
+	nqgen := c.N(3000, 40000)
+	for i := 0; i < nqgen; i++ {
+		c.Case("qgen", i, func(o *rt.Obs) { st.qgenCase(o, i) })
+	}
+	// slot sweep: every count / limit / key / function argument slot × every typed
+	// constant (quick: a seeded third)
+	for i, n := 0, c11SlotCases(); i < n; i++ {
+		if c.Quick() && int(rt.NewRand(uint64(i)*2654435761+c.Seed).Uint64()%3) != 0 {
+			continue
+		}
+		c.Case("qslot", i, func(o *rt.Obs) { st.qslotCase(o, i) })
+	}
 	for i := 0; i < nbytes; i++ {
 		c.Case("bytes", i, func(o *rt.Obs) { st.bytesCase(o, c11ByteFormats[i%len(c11ByteFormats)], i) })
 	}
@@ -1016,10 +1029,13 @@ func (st *c11State) runQuery(o *rt.Obs, q string) {
 		o.Violation("panic:compiler-"+out.Stage+":"+out.PanicSig, fmt.Sprintf("%s panicked: %s\n%s\n%s", out.Stage, out.Panic, replay, rt.TrimStack(out.Stack, 36)))
 	case out.ParseErr != "":
 		c.Count("query_parse_error", 1)
+		c.Count(o.Kind+"_parse_error", 1)
 	case out.SemErr != "":
 		c.Count("query_semantic_error", 1)
+		c.Count(o.Kind+"_semantic_error", 1)
 	default:
 		c.Count("query_compiled", 1)
+		c.Count(o.Kind+"_compiled", 1)
 	}
 	if out.Parsed {
 		o.Nontrivial(fmt.Sprintf("%s/%d", o.Kind, o.Index))
